@@ -244,6 +244,24 @@ def tr_fixed(src_enc, src_dec, src_gj):
     return m.group(1), m.group(2)
 
 
+def tr_errors(src_gj):
+    """geojson.go: the two error types and their Error() methods (value receivers; the payload field of the unsupported one)"""
+    if not re.search(r"^type InvalidGeometryError struct\{\}$", src_gj, flags=re.M):
+        raise Untranslatable("InvalidGeometryError struct")
+    if not re.search(r"^type UnsupportedGeometryError struct \{\n\s*Type string\n\}$", src_gj, flags=re.M):
+        raise Untranslatable("UnsupportedGeometryError struct")
+    m1 = re.search(r'^func \(e InvalidGeometryError\) Error\(\) string \{\n\s*return "([^"\\\\]*)"\n\}$', src_gj, flags=re.M)
+    m2 = re.search(r'^func \(e UnsupportedGeometryError\) Error\(\) string \{\n\s*return "([^"\\\\]*)" \+ e\.Type\n\}$', src_gj, flags=re.M)
+    if not m1:
+        raise Untranslatable("InvalidGeometryError.Error does not match its idiom")
+    if not m2:
+        raise Untranslatable("UnsupportedGeometryError.Error does not match its idiom")
+    if len(re.findall(r"^func ", src_gj, flags=re.M)) != 2:
+        raise Untranslatable("geojson.go has functions other than the two Error methods")
+    return ('def invalidGeometryErrorText : String := "%s"\n'
+            'def unsupportedGeometryErrorText (ty : String) : String := "%s" ++ ty' % (m1.group(1), m2.group(1)))
+
+
 HEADER = """import GeomV.C06.Model
 /-!
 REGENERATED on every run of `bin/check C06` by checks/c06_go2lean.py from
@@ -280,6 +298,7 @@ def generate(repo):
     callee = tr_mapper(dec, "makeLinearRings", None, None)
     parts.append("def makeLinearRings (css : List (List (List F))) : Except Err (List (List (Pt F))) :=\n  mapE %s css" % callee)
     parts.append(tr_doFromGeoJSON(dec))
+    parts.append(tr_errors(gj))
     return HEADER + "\n\n".join(parts) + "\n\nend GeomV.C06.Gen\n"
 
 
